@@ -97,7 +97,8 @@ theorem idcStarFuel_singleWorld (fuel : Nat) (outcomes conditions : Event) (x : 
               | some val =>
                 rw [hg] at h
                 simp only at h
-                cases hx : exchangeStep cf (newOutcomesAndConditions kordf nev outcomes conditions).fst c1 val with
+                cases hx : exchangeStep cf (newOutcomesAndConditions kordf nev outcomes conditions).fst c1 val
+                    ((newOutcomesAndConditions kordf nev outcomes conditions).snd.filter (fun p => p.1 ≠ c1)) with
                 | error err => rw [hx] at h; cases h
                 | ok on =>
                   rw [hx] at h
@@ -158,7 +159,8 @@ theorem idcStarFuel_mono (fuel : Nat) (outcomes conditions : Event) (x : Expr)
               | some val =>
                 rw [hg] at h
                 simp only at h ⊢
-                cases hx : exchangeStep cf (newOutcomesAndConditions kordf nev outcomes conditions).fst c1 val with
+                cases hx : exchangeStep cf (newOutcomesAndConditions kordf nev outcomes conditions).fst c1 val
+                    ((newOutcomesAndConditions kordf nev outcomes conditions).snd.filter (fun p => p.1 ≠ c1)) with
                 | error err => rw [hx] at h; cases h
                 | ok on =>
                   rw [hx] at h
